@@ -205,7 +205,9 @@ protected:
     if (chunk.advanced != 0) {
       // Checking if a full string is encoded in these advanced chars
       chunk.str[prevLen + chunk.advanced] = 0;
-      nextLen = strlen((char *)(chunk.str + prevLen));
+      // (the two first chars encode the prefix length and they can be '\0')
+      nextLen = (chunk.advanced < 2) ? chunk.advanced : 2;
+      nextLen += strlen((char *)(chunk.str + prevLen + nextLen));
 
       if ((nextLen < chunk.advanced) && (nextLen > 0)) {
         uint read =
